@@ -1039,6 +1039,32 @@ func c13Tasks(tier string) []mc.Task {
 		}
 	}
 
+	// ---- (C4) compression at block-size boundaries: lengths around the multiples of 256 (and 1000), three rows
+	// whose pattern composition changes along the alignment
+	ts = append(ts, c13SizedTask{1 << 19, mc.Task{Name: "compress#length-sweep", Run: func(c *mc.Ctx) {
+		var lens []int
+		for _, b := range []int{256, 512, 768, 1000, 1024, 2000, 2048} {
+			for d := -2; d <= 2; d++ {
+				lens = append(lens, b+d)
+			}
+		}
+		for _, L := range lens {
+			seqs := make([]string, 3)
+			for i := range seqs {
+				b := make([]byte, L)
+				for j := range b {
+					b[j] = "AC-NA-"[(j*(i+2)+j/5+i*(j/256)+(j/250)*(i+1))%6]
+				}
+				seqs[i] = string(b)
+			}
+			c13Check(c, c13Case{Op: "compress", Alpha: align.NUCLEOTIDS, Seqs: seqs})
+			c13Check(c, c13Case{Op: "dedup", Kind: "aln", Alpha: align.NUCLEOTIDS, Seqs: seqs})
+			if c.Expired() {
+				return
+			}
+		}
+	}}})
+
 	// ---- (D3) many rows: every one-column alignment of 13..16 rows over {A,C} (more rows than the
 	// small-input paths of sorting and hashing code take), both alphabets, both nAsGap values
 	for n := 13; n <= 16; n++ {
@@ -1092,7 +1118,7 @@ func init() {
 	mc.Register(&mc.Prop{
 		ID:    "C13",
 		Level: "exploration",
-		Rule: cliStreamRule[1:] + " " + "(also: Compress on every 2x3 and 2x4 [thorough 3x3] alignment over {M,L,N,-}, {A,B,N,-}, {A,B,R,-}, {A,B,C,D}, letter sets in which two different columns collide under the usual polynomial string hashes and byte sums; every one-column alignment of 13..16 rows over {A,C}; Compress and Deduplicate on 3x4500 and 40x30 alignments against the oracle and under the controlled scheduler, preemption bound 1 — one execution unless the operation spawns goroutines;) bounded-exhaustive enumeration, nucleotide letters {A,-,N,C,X} / protein letters {A,-,X,C,N} taken as the first k of that list, rows named q,b,z,a,m,c,... with distinct comments. " +
+		Rule: cliStreamRule[1:] + " " + "(also: Compress and Deduplicate on 3-row alignments of every length within 2 of 256, 512, 768, 1000, 1024, 2000, 2048; Compress on every 2x3 and 2x4 [thorough 3x3] alignment over {M,L,N,-}, {A,B,N,-}, {A,B,R,-}, {A,B,C,D}, letter sets in which two different columns collide under the usual polynomial string hashes and byte sums; every one-column alignment of 13..16 rows over {A,C}; Compress and Deduplicate on 3x4500 and 40x30 alignments against the oracle and under the controlled scheduler, preemption bound 1 — one execution unless the operation spawns goroutines;) bounded-exhaustive enumeration, nucleotide letters {A,-,N,C,X} / protein letters {A,-,X,C,N} taken as the first k of that list, rows named q,b,z,a,m,c,... with distinct comments. " +
 			"DEDUP on alignments: every n x L matrix for n<=4, L<=2 (k=5), n<=3, L=3 (k=4), 4x3 (k=3), 5x1, 6x1, 2x4 (k=4), 5x2, 6x2, 2x5, 3x4 (k=3), and the alignment without rows; thorough adds 4x3, 3x4, 5x2, 6x2, 2x5 (k=4), 2x6, 7x2, 5x3 (k=3), 3x3 (k=5). " +
 			"DEDUP on sequence sets (ragged): every n-tuple of strings of length 0..m for (n,m,k) = (1..3,3,4), (4,2,4), (5,2,3), (3,2,5), and the set without sequences; thorough adds (4,3,3), (5,2,4), (3,4,3). " +
 			"Every dedup input is run for both alphabets and both nAsGap values, Deduplicate applied twice. " +
